@@ -108,6 +108,7 @@ func (r *ring) NextWriteCmd() (one Completed, multi []Completed, ch chan RedisRe
 		// has already buffered, and those may be the very commands the reader is waiting for (a deadlock once
 		// the ring is full). Report "nothing to write now": the writer flushes and then waits in WaitForWrite.
 		r.read1--
+		verifEv(evWNextBusy, int(p), 0)
 		return
 	}
 	if n.mark == 1 {
